@@ -767,7 +767,9 @@ func (path *Path) PrependAsn(asn uint32, repeat uint8, confed bool) {
 		p := bgp.NewAs4PathParam(segType, asns)
 		asPath.Value = append([]bgp.AsPathParamInterface{p}, asPath.Value...)
 	}
-	path.setPathAttr(asPath)
+	// rebuild the attribute: its header length must cover the prepended
+	// AS numbers, UPDATE packing sizes messages with Len()
+	path.setPathAttr(bgp.NewPathAttributeAsPath(asPath.Value))
 }
 
 func isPrivateAS(as uint32) bool {
